@@ -114,6 +114,16 @@ def run(chk, prog):
     if ok:
         tr = tm.trace(op_base(rem[0].args[1]), through_calls=[r"Option::<T>::unwrap$"])
         ok = any(k == "call" and info is pops[0] for k, info in tr)
+    # every call of timer() consumes the expired prefix of the list, whatever else is going on: an entry left behind by a completed
+    # frame and only consumed "when there is something in the queue" is popped later, at a moment when its id belongs to a new frame
+    pp = [c for c in tm.calls if re.search(r"VecDeque::<T, A>::partition_point$|VecDeque::<T, A>::front$|VecDeque::<T, A>::pop_front$", c.path or "")]
+    from ..flow import must_pass as _mp
+    always = bool(pp) and _mp(tm, [0], [c.bb for c in pp], tm.returns())
+    chk.instance("expiry", "%s:%s" % (tm.file, tm.line), "timer() examines the expiry list on every call (no early return before it)", always)
+    if not always:
+        chk.finding("expiry", tm.key, "timer-skipped", "", "%s:%s" % (tm.file, tm.line),
+                    "Fragments::timer can return without looking at the expiry list: entries of completed frames outlive their deadline and are "
+                    "consumed later, when their id has been reused after wrap-around, evicting a frame that is still being reassembled")
     chk.instance("expiry", "%s:%s" % (tm.file, tm.line), "timer() removes from the queue every id it pops", ok)
     if not ok:
         chk.finding("expiry", tm.key, "timer-shape", "", "%s:%s" % (tm.file, tm.line), "Fragments::timer does not remove the popped id from the reassembly queue")
